@@ -21,7 +21,7 @@ import (
 func TestMain(m *testing.M) { ev.Main(m, "C03") }
 
 type Step struct {
-	Op   string `json:"op"`   // send | ack | early | near | late | end | pub2 | hold2 | rel2
+	Op   string `json:"op"`   // send | ack | early | near | late | end | pub2 | hold2 | rel2 | vanish
 	S    int    `json:"s"`    // subscriber index (ack, end)
 	K    int    `json:"k"`    // ack, pub2: index into that subscriber's in-flight list (mod len); -1 = an identifier that is not in flight
 	Type string `json:"type"` // ack: puback pubrec pubrel pubcomp
@@ -31,7 +31,12 @@ type Case struct {
 	// one subscriber per entry, subscribed to "t/#" with that requested QoS: 1 or 2 (judged in
 	// full), 0 (one QoS 0 copy, nothing in flight) or 3 (not a QoS: what such a subscriber is
 	// sent is not judged, but it must not cost the others anything, identifiers included)
-	SubQoS []int  `json:"sub_qos"`
+	SubQoS []int `json:"sub_qos"`
+	// IDBase: so many packet identifiers are taken out of the writer's allocator before the
+	// script starts (and handed back before the final read-out): the deliveries then carry
+	// identifiers from IDBase+1 on — the edges of narrower encodings (127/128, 255/256,
+	// 32767/32768), the UTF-16 surrogate band (55296..57343) and the top of the range
+	IDBase int    `json:"id_base,omitempty"`
 	Steps  []Step `json:"steps"`
 }
 
@@ -80,9 +85,17 @@ func run(c Case) (f *failure, nontrivial bool) {
 	if f := settle(); f != nil {
 		return f, false
 	}
+	var heldIDs []int32
+	if c.IDBase > 0 {
+		pool := wasp.VerifWriterMIDPool(n.Writer)
+		for i := 0; i < c.IDBase; i++ {
+			heldIDs = append(heldIDs, pool.Get())
+		}
+	}
 	inflight := make([][]*flight, len(subs))
 	heldIn := make([]map[uint16]bool, len(subs)) // the subscribers' own QoS 2 publishes awaiting their PUBREL
 	ended := make([]bool, len(subs))
+	vanishing := make([]bool, len(subs))
 	seenRx := make([]int, len(subs))
 	for i, k := range subs {
 		seenRx[i] = len(k.Rx)
@@ -116,6 +129,25 @@ func run(c Case) (f *failure, nontrivial bool) {
 	retransmissions, sawRel, sawWrong := 0, false, false
 	sends := 0
 	for si, st := range c.Steps {
+		if st.Op == "vanish" {
+			// subscriber S loses its connection exactly while the next delivery is being written to
+			// it: the write starts, the client side closes, the broker's serve loop notices and
+			// takes the session out of the registry, and only then does the write fail. The step
+			// arms that and performs the send that triggers it.
+			if st.S < len(subs) && !ended[st.S] {
+				k := subs[st.S]
+				sid := n.Local.SessionOf(k.Conn)
+				k.Conn.OnNextWrite(func() {
+					k.Conn.ClientClose()
+					for until := time.Now().Add(2 * time.Second); time.Now().Before(until) && n.Local.Get(sid) != nil; {
+						time.Sleep(50 * time.Microsecond)
+					}
+				})
+				vanishing[st.S] = true
+				sawWrong = true
+			}
+			st.Op = "send"
+		}
 		switch st.Op {
 		case "send":
 			sends++
@@ -127,6 +159,13 @@ func run(c Case) (f *failure, nontrivial bool) {
 			}
 			for i := range subs {
 				got := fresh(i)
+				if vanishing[i] && !ended[i] {
+					// the delivery that was being written when the connection died is lost with it
+					vanishing[i] = false
+					ended[i] = true
+					inflight[i] = nil
+					continue
+				}
 				if ended[i] {
 					if len(got) != 0 {
 						return &failure{fmt.Sprintf("step %d: ended sub%d received %v", si, i, got), false}, nontrivial
@@ -425,6 +464,9 @@ func run(c Case) (f *failure, nontrivial bool) {
 		}
 	}
 	pool := wasp.VerifWriterMIDPool(n.Writer)
+	for _, id := range heldIDs {
+		pool.Put(id)
+	}
 	free := make([]bool, 65536)
 	for i := 0; i < 65540; i++ {
 		v := pool.Get()
@@ -485,6 +527,7 @@ func TestRandom(t *testing.T) {
 		for i := 0; i < ns; i++ {
 			c.SubQoS = append(c.SubQoS, rapid.SampledFrom([]int{1, 2, 1, 2, 1, 2, 1, 2, 0, 3}).Draw(t, "subqos"))
 		}
+		c.IDBase = rapid.SampledFrom([]int{0, 0, 0, 0, 125, 253, 32765, 55293, 57340, 65300}).Draw(t, "idBase")
 		n := rapid.IntRange(3, 24).Draw(t, "steps")
 		c.Steps = append(c.Steps, Step{Op: "send"})
 		for i := 0; i < n; i++ {
@@ -509,7 +552,7 @@ func TestRandom(t *testing.T) {
 				if rapid.IntRange(0, 3).Draw(t, "unusedId") == 0 {
 					k = -1
 				}
-				op := rapid.SampledFrom([]string{"pub2", "hold2", "hold2", "rel2"}).Draw(t, "inbound")
+				op := rapid.SampledFrom([]string{"pub2", "hold2", "hold2", "rel2", "vanish"}).Draw(t, "inbound")
 				if op != "pub2" && k < 0 {
 					k = 0
 				}
